@@ -77,6 +77,13 @@ CHECKS["C01"] = (True, TV, "translation validation per program: reference interp
     "Trusts z3, the proxy model (Python int = Int, float = Real: rounding abstracted), the reference interpreter (validated against the 51 programs of tests/test_vm.py on every run). "
     "Loop trip counts <= 3 (quick) / 4 (thorough); programs outside the family are outside the claim.", "DESIGN.md 5 (C01)")
 
+CHECKS["C03"] = (True, TV, "translation validation per program over call graphs: reference interpreter (fresh frame per activation, overload by the statement's rule) vs the real lowering and VM on symbolic arguments (symx + z3)",
+    "Every member of family F3 (templates: each read position of a caller parameter/local after a call x callee shapes that overwrite their own parameters x definition order; nested, "
+    "repeated, sequential calls; direct, tree and mutual recursion to depth 4; overloads by int/float and vector size; vector and matrix arguments written in the callee by plain, element, "
+    "row, swizzle and dynamic-index stores; void callees; plus seeded random programs with helper functions) is compiled and linked by the real code and run on the real VM with symbolic "
+    "arguments; z3 decides per joint path that return value and globals equal the reference interpreter's.",
+    "Trusts z3, the proxy model, the reference interpreter and the overload table O3. Array/struct arguments and optional parameters are outside.", "DESIGN.md 5 (C03)")
+
 NOT_YET = "check not built yet in this round (see DESIGN.md status); nothing is claimed"
 NA = {
     "C18": "quantifies over hash seeds, processes and compilation histories: none of these is a value flowing through the code, so there is no assertion over symbolic variables for a solver to decide (DESIGN.md section 6)",
